@@ -81,6 +81,10 @@ def dump(x, depth=0):
         return ("E",)
     if x is Nil:
         return ("Nil",)
+    if t.__module__.startswith("d42.validation"):
+        # error objects keep a reference to the validated value (actual_value aliases the argument):
+        # compare class and path only, the value is compared where it is an argument
+        return ("Err", t.__name__, repr(getattr(x, "path", None)))
     if t is float:
         return ("f", x.hex() if x == x and abs(x) != float("inf") else repr(x))
     return (t.__name__, repr(x))
@@ -116,6 +120,33 @@ def dump_generated(x, depth=0):
     if isinstance(x, (_dt.date, _uuid.UUID)):
         return ("clock-or-entropy", type(x).__name__)
     return dump(x)
+
+
+_PINNED = None
+
+
+def pin(x, depth=0):
+    """Generator.visit_datetime / visit_date / visit_uuid4 read the clock and os.urandom directly
+    (not the random tape).  A generated value flows into later operations as an argument, so those
+    leaves are overwritten IN PLACE (a caller mutation of the returned container) by constants of
+    the same type; otherwise two runs of one history would not have equal inputs."""
+    global _PINNED
+    import datetime as _dt
+    import uuid as _uuid
+    if _PINNED is None:
+        _PINNED = {_dt.datetime: _dt.datetime(2020, 1, 2, 3, 4, 5), _dt.date: _dt.date(2020, 1, 2),
+                   _uuid.UUID: _uuid.UUID("886313e1-3b8a-4372-9b90-0c9aee199e5d")}
+    if depth > 60:
+        return x
+    if type(x) is list:
+        for i in range(len(x)):
+            x[i] = pin(x[i], depth + 1)
+        return x
+    if type(x) is dict:
+        for k in list(x):
+            x[k] = pin(x[k], depth + 1)
+        return x
+    return _PINNED.get(type(x), x)
 
 
 def clone(x):
@@ -230,7 +261,7 @@ def execute(op, env):
             r = env[op["s"]] == _item(op["v"], env)
         elif k == "fake":
             with tapemod.scripted(tapemod.Tape(FAKE_TAPE)):
-                r = fake(env[op["s"]])
+                r = pin(fake(env[op["s"]]))
         else:
             raise RuntimeError(f"unknown op {k}")
     except RecursionError:
@@ -359,8 +390,9 @@ def _try(f):
     except Exception as e:
         print("   raised", type(e).__name__)
 def _fake(s):
+    from props.c07 import pin       # clock / os.urandom leaves -> constants (in place)
     with tape.scripted(tape.Tape(%r)):
-        return fake(s)
+        return pin(fake(s))
 def _reverse(t):
     if type(t) is list: t.reverse()
     else:
@@ -679,7 +711,7 @@ class Abstractor:
         self.cell = {}        # id(container) -> cell index
         self.keep = []        # keeps the containers alive so that ids stay unique
         self.idx = {}         # id(schema) -> pool index
-        self.tracked = {}     # pool index -> the model can resolve indexing on it
+        self.tracked = {}     # pool index -> {key atom: pool index | None} the model's n_keys cell holds, or None
         self.unmodelled = 0
 
     # --- atoms
@@ -735,14 +767,14 @@ class Abstractor:
             return f"(ISch {self.idx[id(env[x])]}%nat)"
         return f"(IAtom {self.atom(eval(x, NS))})"
 
-    def new_schema(self, s, tracked=False):
+    def new_schema(self, s, tracked=None):
         self.idx[id(s)] = self.npool
         self.keep.append(s)
         self.tracked[self.npool] = tracked
         self.npool += 1
         return self.npool - 1
 
-    def derive(self, recv, cls, name, x, ok, result, cells, tracked=False):
+    def derive(self, recv, cls, name, x, ok, result, cells, tracked=None):
         """cells = cells the model allocates when the operation succeeds"""
         r = f"(Some {recv}%nat)" if recv is not None else "None"
         if ok:
@@ -781,7 +813,13 @@ class Abstractor:
             cls, nm, site = {"decl_list": ("cls_list", "n_elements", "SiteListCall"),
                              "decl_dict": ("cls_dict", "n_keys", "SiteDictCall"),
                              "decl_any": ("cls_any", "n_types", "SiteAnyCall")}[k]
-            self.derive(None, cls, nm, f"(XShallow {site} {c}%nat)", ok, r, 1, tracked=(k == "decl_dict"))
+            km = None
+            if k == "decl_dict" and ok:
+                km = {}
+                for kk, v in env[op["c"]].items():
+                    kk = kk.key if isinstance(kk, optional) else kk
+                    km[self.atom(kk)] = self.idx.get(id(v)) if isinstance(v, Schema) else None
+            self.derive(None, cls, nm, f"(XShallow {site} {c}%nat)", ok, r, 1, tracked=km)
         elif k == "decl_list_type":
             self.derive(None, "cls_list", "n_type", f"(XSch {sidx('s')}%nat)", ok, r, 0)
         elif k == "refine":
@@ -790,8 +828,9 @@ class Abstractor:
                         tracked=self.tracked[s])
         elif k == "add":
             s, t = sidx("s"), sidx("t")
+            # the model merges the receiver's n_keys cell (none: empty) with t's (none: empty)
             self.derive(s, 0, "n_keys", f"(XExtend SiteAdd (EFrom {t}%nat n_keys))", ok, r, 1,
-                        tracked=self.tracked[s] or self.tracked[t])
+                        tracked={**(self.tracked[s] or {}), **(self.tracked[t] or {})})
         elif k == "or":
             self.derive(None, "cls_any", "n_types", f"(XTuple [{sidx('s')}%nat; {sidx('t')}%nat])", ok, r, 1)
         elif k in ("subst", "from_native"):
@@ -816,7 +855,7 @@ class Abstractor:
                 self.emit(f"(OObserve {self.name('make_required-identity')} [ISch {s}%nat; {a}])")
                 return "same"
             self.derive(s, 0, "n_keys", f"(XExtend SiteMakeRequired (ESnap {a} {self.FUEL}%nat))", ok, r, 1,
-                        tracked=self.tracked[s])
+                        tracked=dict(self.tracked[s] or {}))
         elif k in ("validate", "validate_or_fail", "eq", "errors"):
             tag = {"validate": "t_validate", "validate_or_fail": "t_validate", "eq": "t_eq", "errors": "t_validate"}[k]
             self.emit(f"(OObserve {tag} [ISch {sidx('s')}%nat; {self.arg(op['v'], env)}])")
@@ -833,7 +872,9 @@ class Abstractor:
         elif k == "getitem":
             s = sidx("s")
             key = eval(op["key"], NS)
-            if ok and id(r) in self.idx and self.tracked[s]:
+            km = self.tracked[s]
+            if ok and id(r) in self.idx and km is not None and km.get(self.atom(key)) is not None:
+                # the model holds this key: it must return the very same pooled schema
                 self.emit(f"(OGetItem {s}%nat n_keys {self.atom(key)})", self.idx[id(r)])
             else:
                 self.emit(f"(OObserve t_getitem [ISch {s}%nat; IAtom {self.atom(key)}])")
@@ -1366,6 +1407,7 @@ def run(ctx):
 
 def _run(ctx, pristine, n_hist, n_ops, depth, n_slices, shrink_budget, model_hist):
     rng = ctx.rng
+    aux = random.Random(rng.getrandbits(64))      # sampling of slices: separate stream
     prev = []                 # every record executed in this process so far (earlier histories)
     cases, case_hist = [], []
     dist = {}
@@ -1425,7 +1467,7 @@ def _run(ctx, pristine, n_hist, n_ops, depth, n_slices, shrink_budget, model_his
         if dep is None:
             cand = [i for i, op in enumerate(records)
                     if op["op"] not in ("mutate", "new_slist", "new_sdict", "new_value")]
-            for i in rng.sample(cand, min(n_slices, len(cand))):
+            for i in aux.sample(cand, min(n_slices, len(cand))):
                 sl = [records[k] for k in slice_for(records, i)]
                 if len(sl) == i + 1:
                     continue
